@@ -100,11 +100,11 @@ func witnessDesign() *dg.Design {
 
 // ---- value helpers ----
 
-func vS(s string) *dg.Val   { return &dg.Val{K: "string", S: s} }
-func vI(i int64) *dg.Val    { return &dg.Val{K: "int", I: i} }
-func vU(u uint64) *dg.Val   { return &dg.Val{K: "uint", U: u} }
-func vB(b bool) *dg.Val     { return &dg.Val{K: "bool", B: b} }
-func vF(f float64) *dg.Val  { return &dg.Val{K: "float", F: f} }
+func vS(s string) *dg.Val  { return &dg.Val{K: "string", S: s} }
+func vI(i int64) *dg.Val   { return &dg.Val{K: "int", I: i} }
+func vU(u uint64) *dg.Val  { return &dg.Val{K: "uint", U: u} }
+func vB(b bool) *dg.Val    { return &dg.Val{K: "bool", B: b} }
+func vF(f float64) *dg.Val { return &dg.Val{K: "float", F: f} }
 func vA(es ...*dg.Val) *dg.Val {
 	return &dg.Val{K: "array", Elems: append([]*dg.Val{}, es...)}
 }
@@ -203,7 +203,9 @@ func fixedCases() []witnessCase {
 func witnessCases(prop string) []witnessCase {
 	okRes := vO("ok", vB(true))
 	var cs []witnessCase
-	p := func(m string, v *dg.Val, sig string) { cs = append(cs, witnessCase{Method: m, Payload: v, Result: okRes, Expect: sig}) }
+	p := func(m string, v *dg.Val, sig string) {
+		cs = append(cs, witnessCase{Method: m, Payload: v, Result: okRes, Expect: sig})
+	}
 	r := func(m string, v *dg.Val, sig string) { cs = append(cs, witnessCase{Method: m, Result: v, Expect: sig}) }
 	if prop == "C02" {
 		p("qry", with(baseQ(), "os", vS("")), "empty-string-arrives-unset")
